@@ -7,6 +7,7 @@
           the binc symbol table), its length and whether its capacity is zero.
    ACase: one class of string / []byte leaves of values decoded through the public
           API: is the leaf inside the input buffer (pointer-range test)?
+   SCase: the same for leaves of a value decoded by the side Decoder of a SelfExt extension.
    RCase: the same for Raw leaves. *)
 From Coq Require Import List NArith ZArith Bool.
 From Verif Require Import Gen.Consts C13.Model.
@@ -27,10 +28,11 @@ Inductive case :=
 | UCase (id : N) (zc : bool) (t : transport) (fm : format) (k : popk) (n : Z) (c0 : bool)
         (o_att : Z) (o_rc : N) (o_len : Z) (o_cap0 : bool)
 | ACase (id : N) (zc it : bool) (t : transport) (fm : format) (f : flow) (k : popk) (n : Z) (o_input : bool)
+| SCase (id : N) (zc it : bool) (t : transport) (fm : format) (f : flow) (k : popk) (n : Z) (o_input : bool)
 | RCase (id : N) (zc : bool) (t : transport) (n : Z) (o_input : bool).
 
 Definition cid (c : case) : N :=
-  match c with UCase i _ _ _ _ _ _ _ _ _ _ => i | ACase i _ _ _ _ _ _ _ _ => i | RCase i _ _ _ _ => i end.
+  match c with UCase i _ _ _ _ _ _ _ _ _ _ => i | ACase i _ _ _ _ _ _ _ _ => i | SCase i _ _ _ _ _ _ _ _ => i | RCase i _ _ _ _ => i end.
 
 (* 0 no memory (cap 0), 1 input, 2 reader buffer, 3 decoder scratch, 4 symbol table, 5 anything else *)
 Definition rclass (b : bview) : N :=
@@ -59,6 +61,12 @@ Definition check_case (c : case) : bool :=
   | ACase _ zc it t fm f k n o_input =>
       match produce (mkopts zc it) t fm (mkpop k (classify n false)) with
       | Some b => Bool.eqb (is_input (keep (mkopts zc it) t f b)) o_input
+      | None => false
+      end
+  | SCase _ zc it t fm f k n o_input =>
+      (* a leaf of a SelfExt value: kept by the side (bytes) Decoder from the extension payload *)
+      match produce (mkopts zc it) TBytes fm (mkpop k (classify n false)) with
+      | Some b => Bool.eqb (is_input (side_subst (mkopts zc it) t (keep (mkopts zc it) TBytes f b))) o_input
       | None => false
       end
   | RCase _ zc t n o_input =>
